@@ -69,6 +69,8 @@ def env_kwargs(delims):
 
 CHUNKS = ("", "a", " ", "\n", " \n ", "a \n", "\n  ", "  a  ", "\t", "a\n\nb")
 CHUNKS_EXTRA = ("\xa0", "\x0b", "\n\n")  # thorough: whitespace by str.isspace, not "tabs and spaces"; two line breaks
+# whitespace other than space/tab (form feed, vertical tab, NBSP, EM SPACE): str.isspace, not "tabs and spaces" (K1)
+CHUNKS_WS = ("\xa0", "\x0b ", "\n\x0c", "a\n\u2003")
 CHUNKS_SMALL = ("", "a", " \n ", "\n  ")
 CHUNKS_MID = ("", "a", " \n ", "\n  ", "a \n")
 
